@@ -80,6 +80,9 @@ func genC03(seed uint64, idx int) *Plan {
 		// re-encoding client between the real crypto/tls client and the front
 		p := genLiveBase(r)
 		p.Forward = r.IntN(4) != 0
+		if p.Resume {
+			p.ClientChainPad = 0 // keeps the resumption hello within one record (the property's size range)
+		}
 		p.Reenc = &ReencPlan{RunPick: r.IntN(8), FromOff: r.IntN(8), Len: r.IntN(9), Pad: []int{0, 0, 1, 17, 31, 200, 1000}[r.IntN(7)]}
 		return &Plan{Kind: "live", Seed: seed, Live: p}
 	}
